@@ -15,15 +15,24 @@ def tag(ns):
     return ns.replace(".", "_")
 
 
-def leaf_kw(ns, name):
-    return f"{name.lower()}_in_{tag(ns)}"
+def kw(ns, name, body):
+    """Keyword the text of a rule starts with (Imports!Kw)."""
+    return f"%{name}" if body == "probe" else f"%{name}_in_{tag(ns)}"
 
 
-def leaf_text(ns, name):
-    """Text matched by rule `name` of file `ns` (probe rules match their keyword and 'nil')."""
-    if name.startswith("P"):
-        return f"{name.lower()} nil"
-    return f"{leaf_kw(ns, name)} 1"
+def leaf_texts(case, probe):
+    """(keyword, text) of every rule with a body of its own: what a reference may end up matching."""
+    out = []
+    for g in case["files"]:
+        if probe:
+            out.append((kw(g["ns"], g["rules"][0], "probe"), kw(g["ns"], g["rules"][0], "probe") + " nil"))
+            continue
+        for n, b, _t in g["defs"]:
+            if b == "common":
+                out.append((kw(g["ns"], n, b), kw(g["ns"], n, b) + " 1"))
+            elif b == "match":
+                out.append((kw(g["ns"], n, b), kw(g["ns"], n, b)))
+    return out
 
 
 def render_file(f):
@@ -36,9 +45,14 @@ def render_file(f):
         else:
             alts.append(f"'q{k}' q{k}={qns}.{qname}")
     alts.append("z?='nil'")   # keeps the probe rule a common rule (it always has an attribute)
-    out.append(f"{p}: '{p.lower()}' ( " + " | ".join(alts) + " );")
-    for n in f["rules"][1:]:
-        out.append(f"{n}: '{leaf_kw(f['ns'], n)}' x=INT;")
+    out.append(f"{p}: '{kw(f['ns'], p, 'probe')}' ( " + " | ".join(alts) + " );")
+    for n, b, t in f["defs"]:
+        if b == "common":
+            out.append(f"{n}: '{kw(f['ns'], n, b)}' x=INT;")
+        elif b == "match":
+            out.append(f"{n}: '{kw(f['ns'], n, b)}';")
+        else:
+            out.append(f"{n}: {t};")
     return "\n".join(out) + "\n"
 
 
@@ -60,8 +74,8 @@ def _path_tokens(case, i):
     chain.reverse()
     toks = []
     for a, b in zip(chain, chain[1:]):
-        toks += [files[a]["rules"][0].lower(), "u_" + files[b]["rules"][0]]
-    toks.append(files[i]["rules"][0].lower())
+        toks += ["%" + files[a]["rules"][0], "u_" + files[b]["rules"][0]]
+    toks.append("%" + files[i]["rules"][0])
     return toks
 
 
@@ -104,7 +118,21 @@ def observe(case, root):
                 note(mm[f"{ns}.{name}"])
             except KeyError:
                 seen.setdefault(f"{ns}.{name}", {})[0] = None
-    res, qres, parsed_types = [], [], []
+    res, qres = [], []
+
+    def parse_chains(toks, key, probe):
+        chains = []
+        for word, text in leaf_texts(case, probe):
+            try:
+                model = mm.model_from_str(" ".join(toks + [key, text]))
+            except Exception:
+                continue
+            objs = _objects(model)
+            for o in objs:
+                note(type(o))
+            chains.append(">".join(type(o)._tx_fqn for o in objs) + "@" + word)
+        return "|".join(chains)
+
     for i, f in enumerate(files):
         if f["ns"] not in mm.namespaces:
             continue
@@ -113,28 +141,18 @@ def observe(case, root):
         for n in f["refs"]:
             attr = pcls._tx_attrs.get("u_" + n) if pcls is not None else None
             linked = attr.cls._tx_fqn if attr is not None and hasattr(attr.cls, "_tx_fqn") else "?"
-            chains = []
-            for g in files:
-                if n not in g["rules"]:
-                    continue
-                text = " ".join(toks + ["u_" + n, leaf_text(g["ns"], n)])
-                try:
-                    model = mm.model_from_str(text)
-                except Exception:
-                    continue
-                objs = _objects(model)
-                for o in objs:
-                    note(type(o))
-                chains.append(">".join(type(o)._tx_fqn for o in objs))
-            res.append([f["ns"], n, linked, "|".join(chains)])
+            res.append([f["ns"], n, linked, parse_chains(toks, "u_" + n, n.startswith("P"))])
         for k, (qns, qname, form) in enumerate(f["qrefs"], 1):
-            attr = pcls._tx_attrs.get(("r" if form == "obj" else "q") + str(k)) if pcls is not None else None
+            an = ("r" if form == "obj" else "q") + str(k)
+            attr = pcls._tx_attrs.get(an) if pcls is not None else None
             linked = attr.cls._tx_fqn if attr is not None and hasattr(attr.cls, "_tx_fqn") else "?"
-            qres.append([f["ns"], f"{qns}.{qname}", form, linked])
+            qres.append([f["ns"], f"{qns}.{qname}", form, linked,
+                         parse_chains(toks, an, False) if form == "rule" else ""])
     classes = []
     for ns in loaded:
         for name, cls in mm.namespaces[ns].items():
-            classes.append([ns, name, cls._tx_fqn, str(len(seen.get(cls._tx_fqn, {})))])
+            classes.append([ns, name, cls._tx_fqn, str(len(seen.get(cls._tx_fqn, {}))), str(cls._tx_type),
+                            ",".join(getattr(c, "_tx_fqn", "?") for c in cls._tx_inh_by)])
     mainl = []
     for n in case["names"]:
         try:
